@@ -9,6 +9,7 @@
      if:<cond>       a conditional that guards the copy of the initial data
      call:<fn>       which libc routine moves the bytes
      let:<x> = <e>   a `const int|dim_t|udim_t x = e;` byte/offset computation
+     ret:<e>         the quotient returned by memory::length()
    The theorem C02_guards_as_modelled compares the list with the one the model transcribes, so a
    dropped, added, reordered or edited guard breaks the proof build until the model is revisited.
 """
@@ -96,14 +97,17 @@ def events(body):
     body = re.sub(r"//[^\n]*", "", body)
     ev = []
     pos = 0
-    pat = re.compile(r"\bOCCA_ERROR\s*\(|\bif\s*\(|(\b\w+\s*\.\s*)?\bassertInitialized\s*\(\s*\)|::(memcpy|memmove)\s*\("
+    pat = re.compile(r"\breturn\s+\(?\s*\w+\s*\?[^;]*;|\breturn\s+modeMemory->size\s*/[^;]*;|\bOCCA_ERROR\s*\(|\bif\s*\(|(\b\w+\s*\.\s*)?\bassertInitialized\s*\(\s*\)|::(memcpy|memmove)\s*\("
                      r"|\bconst\s+(?:int|dim_t|udim_t)\s+(\w+)\s*=\s*([^;]+);")
     while True:
         m = pat.search(body, pos)
         if not m:
             break
         tok = m.group(0)
-        if tok.startswith("OCCA_ERROR"):
+        if tok.startswith("return"):
+            ev.append("ret:" + norm(tok[6:].rstrip(";")))
+            pos = m.end()
+        elif tok.startswith("OCCA_ERROR"):
             inner, end = paren_group(body, m.end() - 1)
             parts = split_top(inner)
             if len(parts) != 2:
@@ -132,6 +136,7 @@ def events(body):
 
 FUNCS = [
     # (name in the generated table, file, header regex)
+    ("memory::length", "src/core/memory.cpp", r"udim_t\s+memory::length\s*\(\s*\)\s*const\s*\{"),
     ("memory::slice", "src/core/memory.cpp", r"occa::memory\s+memory::slice\s*\([^)]*\)\s*const\s*\{"),
     ("memory::copyFrom(ptr)", "src/core/memory.cpp", r"void\s+memory::copyFrom\s*\(\s*const\s+void\s*\*\s*src\s*,\s*const\s+dim_t\s+count[^)]*\)\s*\{"),
     ("memory::copyFrom(memory)", "src/core/memory.cpp", r"void\s+memory::copyFrom\s*\(\s*const\s+memory\s+src\s*,\s*const\s+dim_t\s+count[^)]*\)\s*\{"),
